@@ -10,6 +10,18 @@ from sqlalchemy.orm import declarative_base, relationship
 Base = declarative_base()
 
 
+class Label(Base):
+    __tablename__ = "label"
+    id = Column(Integer, primary_key=True)
+    name = Column(String, nullable=False)
+
+
+class Kind(Base):
+    __tablename__ = "kind"
+    id = Column(Integer, primary_key=True)
+    name = Column(String, nullable=False)
+
+
 class Author(Base):
     __tablename__ = "author"
     id = Column(Integer, primary_key=True)
@@ -31,6 +43,9 @@ class Post(Base):
     author_id = Column(Integer, ForeignKey("author.id"), nullable=True)
     author = relationship("Author", back_populates="posts")
     comments = relationship("Comment", back_populates="post")
+    # Post.tag and Comment.tag: the same relationship key on two models, different tables
+    tag_id = Column(Integer, ForeignKey("label.id"), nullable=True)
+    tag = relationship("Label")
 
 
 class Comment(Base):
@@ -40,11 +55,13 @@ class Comment(Base):
     post_id = Column(Integer, ForeignKey("post.id"), nullable=False)
     writer_id = Column(Integer, ForeignKey("author.id"), nullable=True)
     co_writer_id = Column(Integer, ForeignKey("author.id"), nullable=True)
+    tag_id = Column(Integer, ForeignKey("kind.id"), nullable=True)
+    tag = relationship("Kind")
     post = relationship("Post", back_populates="comments")
     writer = relationship("Author", back_populates="comments", foreign_keys=[writer_id])
     # a second relationship to the same target: hosts join it through an alias
     co_writer = relationship("Author", back_populates="co_written", foreign_keys=[co_writer_id])
 
 
-MODELS = {"Author": Author, "Post": Post, "Comment": Comment}
+MODELS = {"Author": Author, "Post": Post, "Comment": Comment, "Label": Label, "Kind": Kind}
 TABLES = {k: v.__table__ for k, v in MODELS.items()}
